@@ -243,6 +243,53 @@ func checkC27(c *Ctx) (string, []string) {
 		}
 	}
 
+	c.Rule("C27.batch-log", "the memory batch is an append-only operation log: Put appends exactly one record (private copies of key and value, not a delete), Delete appends exactly one record (private copy of the key, marked delete), neither touches anything else; Commit replays the log in order, applying each record as a delete or a put according to its own mark, so the last operation on a key wins", 6)
+	{
+		M := "(*internal/database/provider/memory.batch)."
+		put := c.Fn(provRoot+"memory", "batch.Put")
+		del := c.Fn(provRoot+"memory", "batch.Delete")
+		com := c.Fn(provRoot+"memory", "batch.Commit")
+		app := "store &p0.writeOps ← append(p0.writeOps, [*alloc:internal/database/provider/memory.writeOp][:])"
+		c.checkEffects("C27.batch-log", M+"Put", put, effectShapesOpt(put, func(string) bool { return true }, true), []string{"copy(make([]byte, len(p1)), p1)", "copy(make([]byte, len(p2)), p2)", app})
+		c.checkEffects("C27.batch-log", M+"Delete", del, effectShapesOpt(del, func(string) bool { return true }, true), []string{"copy(make([]byte, len(p1)), p1)", app})
+		c.checkCondSet("C27.batch-log", M+"Put", put, nil)
+		c.checkCondSet("C27.batch-log", M+"Delete", del, nil)
+		opFields := func(f *ssa.Function) map[string]string {
+			out := map[string]string{}
+			allInstrs(f, func(in ssa.Instruction) {
+				if st, ok := in.(*ssa.Store); ok {
+					a := exprStr(st.Addr, shapeOpts)
+					if i := strings.Index(a, "memory.writeOp."); i >= 0 {
+						out[a[i+len("memory.writeOp."):]] = exprStr(st.Val, shapeOpts)
+					}
+				}
+			})
+			return out
+		}
+		pf, df := opFields(put), opFields(del)
+		c.Check(pf["key"] == "make([]byte, len(p1))" && pf["value"] == "make([]byte, len(p2))" && (pf["isDelete"] == "" || pf["isDelete"] == "false"), "C27.batch-log", M+"Put · record", put.Pos(), "record = (put, copy of key, copy of value)", fmt.Sprintf("Put records %v", pf))
+		c.Check(df["key"] == "make([]byte, len(p1))" && df["isDelete"] == "true" && df["value"] == "", "C27.batch-log", M+"Delete · record", del.Pos(), "record = (delete, copy of key)", fmt.Sprintf("Delete records %v", df))
+		c.checkCondSet("C27.batch-log", M+"Commit", com, []string{"(* < len(p0.writeOps))", "(nil == p0.db.data)", "p0.writeOps[*].isDelete"})
+		// arms of the replay
+		isDel := condEdges(com, func(v ssa.Value) (bool, bool) { return exprStr(v, shapeOpts) == "p0.writeOps[*].isDelete", true })
+		okArms := len(isDel) == 1
+		allInstrs(com, func(in ssa.Instruction) {
+			switch x := in.(type) {
+			case *ssa.MapUpdate:
+				if exprStr(x.Key, shapeOpts) != "p0.writeOps[*].key" || exprStr(x.Value, shapeOpts) != "p0.writeOps[*].value" || guardedBy(com, in, isDel) {
+					okArms = false
+				}
+			case *ssa.Call:
+				if b, ok := x.Call.Value.(*ssa.Builtin); ok && b.Name() == "delete" {
+					if exprStr(x.Call.Args[1], shapeOpts) != "p0.writeOps[*].key" || !guardedBy(com, in, isDel) {
+						okArms = false
+					}
+				}
+			}
+		})
+		c.Check(okArms, "C27.batch-log", M+"Commit · replay", com.Pos(), "each record applied as delete(key) or data[key] = value by its own mark, in log order", "Commit does not apply each logged record according to its own delete mark")
+	}
+
 	c.Rule("C27.batch-atomic", "the memory batch is applied in one critical section: Commit takes the database write lock once, every map write it performs (directly or through callees) happens while that lock is held, and it calls no method that takes the lock itself; all other accesses to the map are under the lock (read lock for reads)", 8)
 	c27Locks(c)
 	_ = types.Typ
